@@ -750,5 +750,6 @@ def run(ctx):
     rule_layout(ctx)
     rule_codec_symmetry(ctx)
     c12.rule_queue(ctx)
+    c12.rule_one_stream(ctx, "pairing")
     rep.nd("value-level round-trip for all field values (integer extremes, varint boundaries): the varint arithmetic of UnsignedVarInt32 is not decided")
     rep.nd("VarInt32 / VarInt64 are not reachable from any schema; their (known) defects are not alarmed")
